@@ -44,7 +44,8 @@ FUNCTIONS = [
     "core.(*StateTransition).useGas", "core.(*StateTransition).gasUsed",
     # core/types, crypto (C12)
     "core/types.isProtectedV", "core/types.deriveChainId", "crypto.ValidateSignatureValues",
-    # params (C13, C14, C08)
+    # consensus/aquahash, params (C13, C14, C08)
+    "consensus/aquahash.calcDifficultyStarting", "consensus/aquahash.calcDifficultyHF1",
     "params.isForked", "params.(*ChainConfig).IsHF", "params.(*ChainConfig).GetBlockVersion", "params.(*ChainConfig).GetHF",
     "params.(*ChainConfig).IsHomestead", "params.(*ChainConfig).IsByzantium", "params.(*ChainConfig).IsConstantinople",
     "params.(*ChainConfig).IsEIP150", "params.(*ChainConfig).IsEIP155", "params.(*ChainConfig).IsEIP158", "params.(*ChainConfig).IsDAOFork",
